@@ -142,7 +142,8 @@ def inline_crate(j):
             b = f['blocks'][bi]
             t = b['term']
             if t['t'] == 'call' and (t['callee'].get('def') or '') == 'std::iter::Iterator::try_for_each' and len(t['args']) == 2 and \
-                    str(t['dest'].get('ty', '')).startswith('std::result::Result<(), '):
+                    (str(t['dest'].get('ty', '')).startswith('std::result::Result<(), ') or
+                     (str(t['dest'].get('ty', '')).startswith('std::ops::ControlFlow<') and (str(t['dest']['ty']).endswith(', ()>') or str(t['dest']['ty']).count(',') == 0))):
                 if _for_each_to_loop(f, bi, by_name, inline_fn, stack, depth, try_=True):
                     stats['inlined'] += 1
                     stats['sites'].append('%s <- for_each' % f['name'])
@@ -150,6 +151,12 @@ def inline_crate(j):
                     continue
             if t['t'] == 'call' and (t['callee'].get('def') or '') == 'std::iter::Iterator::fold' and len(t['args']) == 3:
                 if _for_each_to_loop(f, bi, by_name, inline_fn, stack, depth, fold=True):
+                    stats['inlined'] += 1
+                    stats['sites'].append('%s <- for_each' % f['name'])
+                    bi += 1
+                    continue
+            if t['t'] == 'call' and (t['callee'].get('def') or '') in OPTION_COMBINATORS and len(t['args']) == 2:
+                if _lower_option_combinator(f, bi, by_name, inline_fn, stack, depth):
                     stats['inlined'] += 1
                     stats['sites'].append('%s <- for_each' % f['name'])
                     bi += 1
@@ -262,6 +269,7 @@ def inline_crate(j):
     stats['webs'] = 0
     for f in j['fns']:
         if f['name'] in touched:
+            stats['lowered'] = stats.get('lowered', 0) + cfgnorm.lower_branch(f)
             for _ in range(4):
                 n = cfgnorm.thread_jumps(f, j.get('adts') or {})
                 stats['threaded'] += n
@@ -319,6 +327,11 @@ def _alias_renamed(j, kn):
     def best(m, cands):
         # several candidates of equal signature: the one whose body calls the same things, if clearly ahead
         want = set(ref_calls.get(m) or [])
+        if len(cands) == 1 and want:
+            got = callees(names[cands[0]])
+            # a lone candidate must still look like the function it replaces (a deleted function and an unrelated
+            # new one of the same signature are not a rename)
+            return cands[0] if len(want & got) / float(len(want | got) or 1) >= 0.34 else None
         if not want or len(cands) < 2:
             return cands[0] if len(cands) == 1 else None
         sc = sorted(((len(want & callees(names[u])) / float(len(want | callees(names[u])) or 1), u) for u in cands), reverse=True)
@@ -364,7 +377,7 @@ def _alias_renamed(j, kn):
             continue
         cands = [u for u in unknown if (u.rsplit('::', 1)[0] if '::' in u else '') == parent and u not in taken and shape(names[u].get('sig')) == sh]
         rivals = [m2 for m2 in missing if m2 not in paired_old and m2 != m and (m2.rsplit('::', 1)[0] if '::' in m2 else '') == parent and shape(ref_sigs.get(m2)) == sh]
-        if len(cands) == 1 and not rivals:
+        if len(cands) == 1 and not rivals and best(m, cands) is not None:
             pairs.append((cands[0], m))
             taken.add(cands[0])
             paired_old.add(m)
@@ -669,6 +682,8 @@ def _closure_escapes(j, cname, gone):
                     elif rv['r'] in ('ref', 'rawptr') and whole(rv['pl']):
                         src = rv['pl']['l']
                     elif rv['r'] == 'agg' and any(o.get('o') in ('copy', 'move') and o['pl']['l'] in alias and whole(o['pl']) for o in rv.get('ops', [])):
+                        if rv['kind'].get('k') == 'closure' and (rv['kind'].get('consumed') or rv['kind'].get('path') in gone):
+                            continue     # captured by a closure whose body was itself spliced in
                         return True      # stored into a larger value
                     if src in alias:
                         if st['pl']['p'] or st['pl']['l'] == 0:
@@ -731,6 +746,80 @@ def _closure_def(f, op):
     return None, None
 
 
+# `map` / `and_then` are left alone: rules recognise them as calls on the reference tree (e.g. the iterators' next())
+OPTION_COMBINATORS = {'std::option::Option::<T>::or_else': 'or_else', 'std::option::Option::<T>::unwrap_or_else': 'unwrap_or_else'}
+
+
+def _lower_option_combinator(f, bi, by_name, inline_fn, stack, depth):
+    """`opt.or_else(c)` / `and_then(c)` / `map(c)` / `unwrap_or_else(c)` with a closure built in this function is the
+    `match` it abbreviates, with the closure body spliced into its arm:
+        or_else:        Some(_) => opt            None => c()
+        and_then:       Some(v) => c(v)           None => None
+        map:            Some(v) => Some(c(v))     None => None
+        unwrap_or_else: Some(v) => v              None => c()"""
+    t = f['blocks'][bi]['term']
+    kind = OPTION_COMBINATORS[t['callee']['def']]
+    opt_op, cb_op = t['args']
+    if opt_op.get('o') not in ('copy', 'move') or opt_op['pl']['p'] or t['dest']['p'] or t['to'] is None or t['to'] < 0:
+        return False
+    cname, cl = _closure_def(f, cb_op)
+    g = by_name.get(cname) if cname else None
+    want_argc = 1 if kind in ('or_else', 'unwrap_or_else') else 2
+    if g is None or g['argc'] != want_argc or len(f['blocks']) + len(g['blocks']) > MAX_BLOCKS:
+        return False
+    inline_fn(g, stack | {g['name']}, depth + 1)
+    opt_l, opt_ty = opt_op['pl']['l'], opt_op['pl']['ty']
+    line, cont, dest = t.get('line'), t['to'], copy.deepcopy(t['dest'])
+    pl = lambda l_, ty, p=None: {'l': l_, 'p': p or [], 'ty': ty}
+    L = len(f['locals'])
+    env_ty = g['locals'][1]['ty']
+    item_ty = g['locals'][2]['ty'] if want_argc == 2 else '()'
+    ret_ty = g['locals'][0]['ty']
+    f['locals'].extend([{'ty': 'isize', 'adt': ''}, {'ty': env_ty, 'adt': ''}, {'ty': ret_ty, 'adt': ''}])
+    l_d, l_env, l_ret = L, L + 1, L + 2
+    B = len(f['blocks'])
+    bSome, bNone, bU, bStub, bAfter = B, B + 1, B + 2, B + 3, B + 4
+    some_item = pl(opt_l, item_ty, [{'k': 'downcast', 'v': 1, 'n': 'Some'}, {'k': 'field', 'i': 0, 'n': '0'}])
+    env_stmts = []
+    if env_ty.startswith('&'):
+        env_stmts.append({'s': 'assign', 'pl': pl(l_env, env_ty), 'rv': {'r': 'ref', 'mut': env_ty.startswith('&mut'), 'pl': pl(cb_op['pl']['l'], cb_op['pl']['ty'])}, 'line': line, 'exp': True})
+        env = {'o': 'move', 'pl': pl(l_env, env_ty)}
+    else:
+        env = {'o': 'move', 'pl': pl(cb_op['pl']['l'], cb_op['pl']['ty'])}
+    none_agg = {'r': 'agg', 'kind': {'k': 'adt', 'path': 'std::option::Option', 'variant': 'None', 'fields': []}, 'ops': []}
+    calls_on_some = kind in ('and_then', 'map')
+    cargs = [env, {'o': 'move', 'pl': some_item}] if calls_on_some else [env]
+    stub = {'cleanup': False, 'stmts': env_stmts, 'term': {'t': 'call', 'callee': {'def': g['name'], 'path': g['name'], 'local': True}, 'args': cargs, 'dest': pl(l_ret, ret_ty), 'to': bAfter, 'line': line, 'exp': False}}
+    if kind == 'map':
+        after_rv = {'r': 'agg', 'kind': {'k': 'adt', 'path': 'std::option::Option', 'variant': 'Some', 'fields': ['0']}, 'ops': [{'o': 'move', 'pl': pl(l_ret, ret_ty)}]}
+    else:
+        after_rv = {'r': 'use', 'a': {'o': 'move', 'pl': pl(l_ret, ret_ty)}}
+    after = {'cleanup': False, 'stmts': [{'s': 'assign', 'pl': copy.deepcopy(dest), 'rv': after_rv, 'line': line, 'exp': True}], 'term': {'t': 'goto', 'to': cont}}
+    if calls_on_some:
+        some_blk = {'cleanup': False, 'stmts': [], 'term': {'t': 'goto', 'to': bStub}}
+        none_blk = {'cleanup': False, 'stmts': [{'s': 'assign', 'pl': copy.deepcopy(dest), 'rv': none_agg, 'line': line, 'exp': True}], 'term': {'t': 'goto', 'to': cont}}
+    else:
+        keep = {'r': 'use', 'a': {'o': 'move', 'pl': pl(opt_l, opt_ty)}} if kind == 'or_else' else {'r': 'use', 'a': {'o': 'move', 'pl': some_item}}
+        if kind == 'unwrap_or_else':
+            some_item['ty'] = dest['ty']
+        some_blk = {'cleanup': False, 'stmts': [{'s': 'assign', 'pl': copy.deepcopy(dest), 'rv': keep, 'line': line, 'exp': True}], 'term': {'t': 'goto', 'to': cont}}
+        none_blk = {'cleanup': False, 'stmts': [], 'term': {'t': 'goto', 'to': bStub}}
+    f['blocks'].extend([some_blk, none_blk, {'cleanup': False, 'stmts': [], 'term': {'t': 'unreachable'}}, stub, after])
+    if not _splice(f, bStub, g, 'fn'):
+        del f['blocks'][B:]
+        del f['locals'][L:]
+        return False
+    f.setdefault('_inlined_closures', []).append(g['name'])
+    for b_ in f['blocks']:
+        for st_ in b_['stmts']:
+            if st_['s'] == 'assign' and st_['pl']['l'] == cl and not st_['pl']['p'] and st_['rv'].get('r') == 'agg' and st_['rv']['kind'].get('k') == 'closure':
+                st_['rv']['kind']['consumed'] = True
+    blk = f['blocks'][bi]
+    blk['stmts'].append({'s': 'assign', 'pl': pl(l_d, 'isize'), 'rv': {'r': 'discr', 'pl': pl(opt_l, opt_ty), 'adt': 'std::option::Option'}, 'line': line, 'exp': True})
+    blk['term'] = {'t': 'switch', 'd': {'o': 'move', 'pl': pl(l_d, 'isize')}, 'targets': [['0', bNone], ['1', bSome]], 'otherwise': bU, 'line': line, 'exp': True}
+    return True
+
+
 def _for_each_to_loop(f, bi, by_name, inline_fn, stack, depth, fold=False, try_=False):
     """`iter.for_each(closure)` (std Iterator, closure built in this function, or a fn item) is the loop
     `while let Some(x) = iter.next() { closure(x) }`: rewrite the call into exactly the MIR shape of a
@@ -781,7 +870,7 @@ def _for_each_to_loop(f, bi, by_name, inline_fn, stack, depth, fold=False, try_=
         # `iter.try_for_each(|x| -> Result<(), E>)`: stop at the first Err and return it; Ok(()) on exhaustion
         res_ty = t['dest']['ty']
         l_res = len(f['locals'])
-        f['locals'].append({'ty': res_ty, 'adt': 'std::result::Result'})
+        f['locals'].append({'ty': res_ty, 'adt': 'std::ops::ControlFlow' if res_ty.startswith('std::ops::ControlFlow<') else 'std::result::Result'})
         f['locals'].append({'ty': 'isize', 'adt': ''})
         f['locals'].append({'ty': '()', 'adt': ''})
         bBody += 3      # exit-ok block, result-switch block, exit-err block
@@ -801,10 +890,11 @@ def _for_each_to_loop(f, bi, by_name, inline_fn, stack, depth, fold=False, try_=
     if try_:
         unit = {'o': 'const', 'c': {'k': 'val', 'v': None, 'ty': '()', 's': 'const ()'}}
         # B+3: exhaustion -> dest = Ok(())
-        f['blocks'].append({'cleanup': False, 'stmts': [{'s': 'assign', 'pl': copy.deepcopy(t['dest']), 'rv': {'r': 'agg', 'kind': {'k': 'adt', 'path': 'std::result::Result', 'variant': 'Ok', 'fields': ['0']}, 'ops': [unit]}, 'line': line, 'exp': True}],
+        is_cf = res_ty.startswith('std::ops::ControlFlow<')
+        f['blocks'].append({'cleanup': False, 'stmts': [{'s': 'assign', 'pl': copy.deepcopy(t['dest']), 'rv': {'r': 'agg', 'kind': {'k': 'adt', 'path': 'std::ops::ControlFlow' if is_cf else 'std::result::Result', 'variant': 'Continue' if is_cf else 'Ok', 'fields': ['0']}, 'ops': [unit]}, 'line': line, 'exp': True}],
                             'term': {'t': 'goto', 'to': cont}})
         # B+4: switch on the closure's result
-        f['blocks'].append({'cleanup': False, 'stmts': [{'s': 'assign', 'pl': pl(l_res + 1, 'isize'), 'rv': {'r': 'discr', 'pl': pl(l_res, res_ty), 'adt': 'std::result::Result'}, 'line': line, 'exp': True}],
+        f['blocks'].append({'cleanup': False, 'stmts': [{'s': 'assign', 'pl': pl(l_res + 1, 'isize'), 'rv': {'r': 'discr', 'pl': pl(l_res, res_ty), 'adt': 'std::ops::ControlFlow' if is_cf else 'std::result::Result'}, 'line': line, 'exp': True}],
                             'term': {'t': 'switch', 'd': {'o': 'move', 'pl': pl(l_res + 1, 'isize')}, 'targets': [['0', bH], ['1', B + 5]], 'otherwise': bU, 'line': line, 'exp': True}})
         # B+5: Err -> dest = that result
         f['blocks'].append({'cleanup': False, 'stmts': [{'s': 'assign', 'pl': copy.deepcopy(t['dest']), 'rv': {'r': 'use', 'a': {'o': 'move', 'pl': pl(l_res, res_ty)}}, 'line': line, 'exp': True}],
